@@ -44,7 +44,26 @@ def ofHexChars : List Char → Option Bytes
     | some x, some y, some r => some (UInt8.ofNat (16 * x + y) :: r)
     | _, _, _ => none
 
-def ofHex (s : String) : Option Bytes := ofHexChars s.toList
+def hexValB (c : UInt8) : Option UInt8 :=
+  if 48 ≤ c && c ≤ 57 then some (c - 48)
+  else if 97 ≤ c && c ≤ 102 then some (c - 87)
+  else if 65 ≤ c && c ≤ 70 then some (c - 55)
+  else none
+
+/-- fast hex parser (works on the UTF-8 bytes, builds the list from the end). -/
+def ofHexFast (s : String) : Option Bytes :=
+  let ba := s.toUTF8
+  if ba.size % 2 != 0 then none else
+  let rec go (i : Nat) (acc : Bytes) : Option Bytes :=
+    match i with
+    | 0 => some acc
+    | k + 1 =>
+      match hexValB (ba.get! (2 * k)), hexValB (ba.get! (2 * k + 1)) with
+      | some x, some y => go k ((x * 16 + y) :: acc)
+      | _, _ => none
+  go (ba.size / 2) []
+
+def ofHex (s : String) : Option Bytes := ofHexFast s
 
 /-! ### big-endian -/
 
@@ -63,15 +82,20 @@ def genByte (seed i : Nat) : UInt8 := UInt8.ofNat ((31 * seed + 131 * i + i / 25
 
 def genBytes (len seed : Nat) : Bytes := (List.range len).map (genByte seed)
 
-/-! ### 64-bit FNV-1a, for comparing long outputs -/
+/-! ### CRC-32 (IEEE, as `zlib.crc32`), for comparing long outputs -/
 
-def fnv1a (bs : Bytes) : Nat :=
-  bs.foldl (fun h b => ((h ^^^ b.toNat) * 1099511628211) % 18446744073709551616) 14695981039346656037
+def crcTableEntry (n : Nat) : UInt32 :=
+  (List.range 8).foldl (fun (c : UInt32) _ => if c &&& 1 == 1 then (c >>> 1) ^^^ 0xEDB88320 else c >>> 1) (UInt32.ofNat n)
+
+def crcTable : Array UInt32 := (Array.range 256).map crcTableEntry
+
+def crc32 (bs : Bytes) : Nat :=
+  ((bs.foldl (fun (c : UInt32) b => crcTable[((c ^^^ b.toUInt32) &&& 0xFF).toNat]! ^^^ (c >>> 8)) 0xFFFFFFFF) ^^^ 0xFFFFFFFF).toNat
 
 /-- canonical short rendering of a possibly long byte string:
-    full hex up to 64 bytes, else `len:fnv:first32:last32`. -/
+    full hex up to 64 bytes, else `len:crc32:first32:last32`. -/
 def summarize (bs : Bytes) : String :=
   if bs.length ≤ 64 then "h" ++ toHex bs
-  else s!"L{bs.length}:{fnv1a bs}:{toHex (bs.take 32)}:{toHex (bs.drop (bs.length - 32))}"
+  else s!"L{bs.length}:{crc32 bs}:{toHex (bs.take 32)}:{toHex (bs.drop (bs.length - 32))}"
 
 end WS
